@@ -12,7 +12,8 @@ some step, anywhere in the string or only at its start.
 """
 import ast
 
-from .consteval import RegexConst, UNKNOWN, const_eval, fold_test
+from .consteval import (BoundConst, FuncRef, PartialConst, RegexConst,
+                        UNKNOWN, const_eval, fold_test)
 from .index import AnalysisError, unparse
 from . import rx
 
@@ -119,12 +120,71 @@ class Summariser:
         raise AnalysisError('cannot analyse replacement {} in {}'.format(
             unparse(repl), self.f.fq))
 
+    def _resub(self, base, pat, repl_alters, text, node):
+        try:
+            anywhere, start, grp = rx.sub_pattern_chars(pat)
+        except rx.MultiCharPattern:
+            return base.extend(Subst(
+                'resub', set(), set(),
+                '{} [pattern {!r}: multi-character match]'.format(text, pat),
+                node))
+        if not repl_alters(grp):
+            anywhere, start = set(), set()
+        return base.extend(Subst('resub', anywhere, start,
+                                 '{} [pattern {!r}]'.format(text, pat), node))
+
+    def _callback_alters(self, fnode):
+        for n in ast.walk(fnode):
+            if isinstance(n, ast.Return) and n.value is not None:
+                for x in ast.walk(n.value):
+                    if isinstance(x, ast.Constant) and isinstance(
+                            x.value, str) and x.value:
+                        return True
+        return False
+
+    def _apply_const_callable(self, cv, e):
+        """`f(s)` where f is a callable known statically: a repository
+        function (inlined), or functools.partial(<regex>.sub, repl)."""
+        if isinstance(cv, FuncRef) and len(e.args) == 1 and not e.keywords:
+            fi = cv.func
+            ps = [a.arg for a in fi.node.args.args]
+            if len(ps) != 1:
+                return None
+            sub = Summariser(self.repo, fi, ps[0], '#none', None)
+            sub.env = {ps[0]: self.sym(e.args[0])}
+            r = sub._block(fi.node.body)
+            if r is None or r[0] != 'return':
+                return None
+            return r[1]
+        if isinstance(cv, PartialConst) and isinstance(
+                cv.func, BoundConst) and cv.func.name == 'sub' and \
+                isinstance(cv.func.obj, RegexConst) and len(
+                    cv.args) == 1 and len(e.args) == 1:
+            repl = cv.args[0]
+            base = self.sym(e.args[0])
+            if isinstance(repl, str):
+                alters = lambda grp: not rx.template_is_identity(repl, grp)  # noqa
+            elif isinstance(repl, FuncRef):
+                alters = lambda grp: self._callback_alters(repl.func.node)  # noqa
+            else:
+                return None
+            return self._resub(base, cv.func.obj.pattern, alters,
+                               unparse(e), e)
+        return None
+
     def sym(self, e):
         if isinstance(e, ast.Name):
             if e.id in self.env:
                 return self.env[e.id]
             raise AnalysisError('{}: {} is not derived from the input string'
                                 .format(self.f.fq, e.id))
+        if isinstance(e, ast.Call) and isinstance(e.func, ast.Name) and \
+                e.func.id not in self.env:
+            cv = self.cev(e.func)
+            if isinstance(cv, (FuncRef, PartialConst)):
+                r = self._apply_const_callable(cv, e)
+                if r is not None:
+                    return r
         if isinstance(e, ast.Call) and isinstance(e.func, ast.Attribute):
             meth = e.func.attr
             pair = None
